@@ -6,6 +6,7 @@ import (
 	"fmt"
 	"io"
 	"strings"
+	"sync"
 
 	"layeh.com/radius/dictionary"
 )
@@ -178,12 +179,22 @@ func (dc *dictCase) req() Req {
 }
 
 // runDictParse runs the real parser; returns tokens, the dictionary, and observations
+var (
+	reusedParser   = &dictionary.Parser{}
+	reusedParserMu sync.Mutex
+)
+
 func runDictParse(dc *dictCase) (*Toks, *dictionary.Dictionary, *memOpener, bool) {
 	op := &memOpener{files: map[string]memEntry{}, limit: 64}
 	for _, f := range dc.files {
 		op.files[f.req] = memEntry{f.canon, f.text}
 	}
-	p := &dictionary.Parser{Opener: op, IgnoreIdenticalAttributes: dc.ignoreIdentical}
+	// one Parser value serves every run of this process (after successes and after failures alike), as a long-lived
+	// caller would use it: whatever a Parser keeps between calls shows up as a difference from the model
+	reusedParserMu.Lock()
+	defer reusedParserMu.Unlock()
+	p := reusedParser
+	p.Opener, p.IgnoreIdenticalAttributes = op, dc.ignoreIdentical
 	root := &memFile{name: dc.rootName, r: bytes.NewReader([]byte(dc.rootText)), op: &memOpener{}}
 	var d *dictionary.Dictionary
 	var err error
